@@ -169,8 +169,11 @@ def run(ctx: Ctx) -> None:
     checks, A, B = universe()
     k1, k2, k3 = checks
     alpha = [f"FURB{k1.code}", f"FURB{k2.code}", "#" + A, "#" + B]
+    # category names no check has, but which begin like a real one or use other characters: they select nothing
+    odd_cats = ["#" + A + "_strict", "#" + A + ".x", "#" + A.capitalize() if A.capitalize() != A else "#X" + A, "#" + B + "2", "#" + A[:-1]]
     optalpha = [(kind, [c]) for kind in ("enable", "disable", "ignore") for c in alpha] + [("enable-all",), ("disable-all",)]
     optalpha.append(("enable", [alpha[0], alpha[3]]))     # comma-separated list
+    oddopts = [(kind, [c]) for kind in ("enable", "disable", "ignore") for c in odd_cats]
     cfgs = [dict(enable=[], disable=[], ignore=[], enable_all=False, disable_all=False)]
     for e in [[]] + [[c] for c in alpha]:
         for d in [[]] + [[c] for c in alpha]:
@@ -192,6 +195,14 @@ def run(ctx: Ctx) -> None:
     else:
         seqs += [tuple(rng.choice(optalpha) for _ in range(rng.choice([4, 5]))) for _ in range(300)]
     cases = [(cfgs[0], list(s)) for s in seqs]                      # CLI only
+    for o in oddopts:                                               # unknown look-alike categories, alone and around one ordinary option
+        cases.append((cfgs[0], [o]))
+        for o2 in optalpha[:8] + [("enable-all",), ("disable-all",)]:
+            cases.append((cfgs[0], [o, o2]))
+            cases.append((cfgs[0], [o2, o]))
+    for c in odd_cats:
+        for fld in ("enable", "disable", "ignore"):
+            cases.append((dict(cfgs[0], **{fld: [c]}), [("enable-all",)] if fld != "enable" else [("disable-all",)]))
     cases += [(c, []) for c in cfgs]                                # config only
     cases += [(c, list(sq)) for c in cfgs if c.get("amend") for sq in seqs[1: 1 + len(optalpha)]]   # path-scoped ignores x every single option
     n_merge = ctx.budget(1500, 60000)
